@@ -53,7 +53,7 @@ LibOp == IF o.mode = "clean" THEN "clean"
 
 EmitAll == (done /\ InSlice) =>
   EmitRec([id |-> "", src |-> Docs[o.d],
-           ops |-> <<IF o.cur = "given" THEN [op |-> "config", targets |-> Effective]
+           ops |-> <<IF o.cur \in {"given", "naive"} THEN [op |-> "config", targets |-> Effective]
                      ELSE [op |-> "config", targets |-> Effective, now |-> "wall"],
                      [op |-> LibOp],
                      [op |-> "cli", input |-> o.inp, output |-> o.outp, mode |-> o.mode, json |-> o.json,
